@@ -54,7 +54,8 @@ Print Assumptions C10_untouched.
        re-executed auto-loaded file is its discovered entry, an imported module is the tree's file at an import
        candidate's path under that candidate's name (current_ctx);
      - after '*' nothing of the old table survives (C10_star_discards_all);
-     - every auto-loaded file the plan forces is executed at its current generation (C10_reexecuted);
+     - every auto-loaded file the plan forces is executed at its current generation (C10_reexecuted), and every
+       discovered auto-loaded file is executed or an untouched survivor (C10_autoload_complete);
      - names and auto-load flags of discovered files are the documented ones (C10_discover_names, C10_discover_autoload).
    Missing for the full equality: that a module brought in by an import is the *discovered* entry of its name
    (needs a tree without both forms of a sub-module) and the by-source import closure of the Spec (Life/ReloadSpec.v
@@ -73,6 +74,16 @@ Theorem C10_star_discards_all : forall born st t k c',
   exists c, (c' = c \/ c' = set_started c) /\ (in_ctx_roots (c_name c) = true -> c_born c = born).
 Proof. exact star_discards_all. Qed.
 Print Assumptions C10_star_discards_all.
+
+(* lower bound of the post-state: every discovered auto-loaded file is executed by a default or '*' reload, or it was
+   loaded before and lies outside the discard set (C10_untouched then keeps it) *)
+Theorem C10_autoload_complete : forall born st t k a s,
+  uniq_ctx st -> acyclic st -> (forall n, a <> RName n) -> In s (discover t k) -> sf_auto s = true ->
+  In (sf_name s, sf_gen s) (r_ev (reload all_off born st t k a))
+  \/ (exists c, In c st /\ c_name c = sf_name s /\ in_ctx_roots (c_name c) = true
+        /\ ~ Discard st (discover t k) a (sf_name s) /\ ~ Forced0 st (discover t k) a (sf_name s)).
+Proof. exact autoload_complete. Qed.
+Print Assumptions C10_autoload_complete.
 
 (* "re-executes those of them that are auto-loaded": holds for every deviation setting *)
 Theorem C10_reexecuted : forall dv born st t k a s,
